@@ -23,15 +23,17 @@ VARIABLES g,             \* G: the grammar being explored ("" in M/S)
 allvars == <<req, cache, last, g, h>>
 
 (* ---------------------------------------------------------------- alphabets and bounds *)
-Grammars == {"range", "rset", "clen", "clenx", "etag", "fwd", "xff", "host"}     \* rset: the range-set after "bytes="
-HdrOf == ("range" :> "range") @@ ("rset" :> "range") @@ ("clen" :> "content-length") @@ ("clenx" :> "content-length") @@ ("etag" :> "if-none-match") @@
+Grammars == {"accept", "range", "rset", "clen", "clenx", "etag", "fwd", "xff", "host"}     \* rset: the range-set after "bytes="
+HdrOf == ("accept" :> "accept") @@ ("range" :> "range") @@ ("rset" :> "range") @@ ("clen" :> "content-length") @@ ("clenx" :> "content-length") @@ ("etag" :> "if-none-match") @@
          ("fwd" :> "forwarded") @@ ("xff" :> "x-forwarded-for") @@ ("host" :> "host")
-GAttrs == ("range" :> <<"range", "range_unit">>) @@ ("rset" :> <<"range", "range_unit">>) @@ ("clen" :> <<"content_length">>) @@ ("clenx" :> <<"content_length">>) @@
+GAttrs == ("accept" :> <<"client_accepts_json", "client_accepts_xml", "accepts_text_plain", "prefers">>) @@
+          ("range" :> <<"range", "range_unit">>) @@ ("rset" :> <<"range", "range_unit">>) @@ ("clen" :> <<"content_length">>) @@ ("clenx" :> <<"content_length">>) @@
           ("etag" :> <<"if_none_match">>) @@
           ("fwd" :> <<"forwarded", "access_route", "forwarded_scheme", "forwarded_host", "forwarded_uri">>) @@
           ("xff" :> <<"access_route">>) @@
           ("host" :> <<"host", "port", "netloc", "subdomain", "uri", "forwarded_host">>)
-Alpha == ("range" :> {"bytes", "items", "=", "-", ",", SP, "x", "0", "1", "8"}) @@
+Alpha == ("accept" :> AcceptTokens \ {"*/*;q=0", ";q=2"}) @@
+         ("range" :> {"bytes", "items", "=", "-", ",", SP, "x", "0", "1", "8"}) @@
          ("rset"  :> {"0", "1", "8", "-", ",", SP, "x"}) @@
          ("clen"  :> {"0", "1", "8", "-", "+", SP, ",", "x", "_", "\\u{b2}"}) @@
          ("clenx" :> CLenOdd \cup {"4", "0", "+", "-", SP}) @@          \* digit look-alikes, over-long digit runs
@@ -43,10 +45,10 @@ Alpha == ("range" :> {"bytes", "items", "=", "-", ",", SP, "x", "0", "1", "8"}) 
          ("host"  :> {"localhost", "example.com", "api.", "abc", "192.0.2.7", "[::1]", "[2001:db8::1]",
                       "8", "0", "4", ":", "[", "]", SP})
 
-BoundsTiny == ("range" :> 2) @@ ("rset" :> 3) @@ ("clen" :> 2) @@ ("clenx" :> 1) @@ ("etag" :> 2) @@ ("fwd" :> 2) @@ ("xff" :> 2) @@ ("host" :> 2)
-BoundsQ  == ("range" :> 4) @@ ("rset" :> 7) @@ ("clen" :> 4) @@ ("clenx" :> 2) @@ ("etag" :> 4) @@ ("fwd" :> 3) @@ ("xff" :> 4) @@ ("host" :> 3)
-BoundsT  == ("range" :> 5) @@ ("rset" :> 8) @@ ("clen" :> 5) @@ ("clenx" :> 3) @@ ("etag" :> 5) @@ ("fwd" :> 4) @@ ("xff" :> 6) @@ ("host" :> 4)
-BoundsET == ("range" :> 5) @@ ("rset" :> 8) @@ ("clen" :> 5) @@ ("clenx" :> 3) @@ ("etag" :> 4) @@ ("fwd" :> 4) @@ ("xff" :> 5) @@ ("host" :> 4)
+BoundsTiny == ("accept" :> 2) @@ ("range" :> 2) @@ ("rset" :> 3) @@ ("clen" :> 2) @@ ("clenx" :> 1) @@ ("etag" :> 2) @@ ("fwd" :> 2) @@ ("xff" :> 2) @@ ("host" :> 2)
+BoundsQ  == ("accept" :> 3) @@ ("range" :> 4) @@ ("rset" :> 7) @@ ("clen" :> 3) @@ ("clenx" :> 2) @@ ("etag" :> 4) @@ ("fwd" :> 3) @@ ("xff" :> 4) @@ ("host" :> 3)
+BoundsT  == ("accept" :> 4) @@ ("range" :> 5) @@ ("rset" :> 8) @@ ("clen" :> 5) @@ ("clenx" :> 3) @@ ("etag" :> 5) @@ ("fwd" :> 4) @@ ("xff" :> 6) @@ ("host" :> 4)
+BoundsET == ("accept" :> 4) @@ ("range" :> 5) @@ ("rset" :> 8) @@ ("clen" :> 5) @@ ("clenx" :> 3) @@ ("etag" :> 4) @@ ("fwd" :> 4) @@ ("xff" :> 5) @@ ("host" :> 4)
 
 NoHeaders == [n \in HNames |-> Absent]
 Base(scheme) == [scheme |-> scheme, server |-> <<"srv.test", 8000>>, peer |-> "127.0.0.1",
@@ -56,7 +58,7 @@ Base(scheme) == [scheme |-> scheme, server |-> <<"srv.test", 8000>>, peer |-> "1
    operator applications under a 20-arm CASE), so the vacuity guard counts action firings itself:
    every named action bumps a TLC register and the C configs (run with ONE worker, so the registers
    are exact) print the counts in a POSTCONDITION as <<"FIRED", action, count>>. *)
-ActionNames == <<"XRange", "XRSet", "XCLen", "XCLenX", "XETag", "XFwd", "XXff", "XHost",
+ActionNames == <<"XAccept", "XRange", "XRSet", "XCLen", "XCLenX", "XETag", "XFwd", "XXff", "XHost",
                  "XReadUri", "XReadForwardedUri", "XReadRelativeUri", "XReadPrefix", "XReadForwardedPrefix",
                  "XReadForwarded", "XReadAccessRoute", "XReadETags", "XReadPlain", "XGetHeader">>
 ActIdx(n) == CHOOSE i \in 1..Len(ActionNames) : ActionNames[i] = n
@@ -65,7 +67,7 @@ ZeroCounters == \A i \in 1..Len(ActionNames) : TLCSet(i, 0)
 PrintCounters == \A i \in 1..Len(ActionNames) : PrintT(<<"FIRED", ActionNames[i], TLCGet(i)>>)
 (* the vocabulary, for the harness' random generator (so that it is not written down twice) *)
 PrintVocab == PrintT(ToJson([vocab |-> [range |-> RangeTokens, clen |-> CLenTokens, etag |-> ETagTokens, fwd |-> FwdTokens,
-                                        xff |-> XffTokens, host |-> HostTokens, addr |-> AddrTokens, xfh |-> XfhToks,
+                                        xff |-> XffTokens, host |-> HostTokens, accept |-> AcceptTokens, accranges |-> AccRanges, addr |-> AddrTokens, xfh |-> XfhToks,
                                         xfp |-> DOMAIN XfpVal, qtags |-> QTags, fwdpairs |-> FwdPairs],
                              attrs |-> Attrs, hnames |-> HNames]))
 PostG == PrintCounters /\ PrintVocab
@@ -73,11 +75,12 @@ PostG == PrintCounters /\ PrintVocab
 (* ----------------------------------------------------------------------- G instances *)
 GInit == /\ g \in Grammars
          /\ req \in {IF g = "rset" THEN [Base(s) EXCEPT !.h["range"] = Hdr(<<"bytes", "=">>)] ELSE Base(s) :
-                         s \in IF g = "host" THEN Schemes ELSE {"http"}}
+                         s \in IF g = "host" THEN AllSchemes ELSE {"http"}}
          /\ cache = EmptyCache /\ last = NoCall /\ h = <<>> /\ ZeroCounters
 Grow(gr) == /\ g = gr /\ Len(req.h[HdrOf[gr]].t) < Bounds[gr]
             /\ \E t \in Alpha[gr] : Extend(HdrOf[gr], t)
             /\ UNCHANGED <<g, h>>
+XAccept == Grow("accept") /\ Bump("XAccept")
 XRange == Grow("range") /\ Bump("XRange")
 XRSet  == Grow("rset") /\ Bump("XRSet")
 XCLen  == Grow("clen") /\ Bump("XCLen")
@@ -86,7 +89,7 @@ XETag  == Grow("etag") /\ Bump("XETag")
 XFwd   == Grow("fwd") /\ Bump("XFwd")
 XXff   == Grow("xff") /\ Bump("XXff")
 XHost  == Grow("host") /\ Bump("XHost")
-GNext == XRange \/ XRSet \/ XCLen \/ XCLenX \/ XETag \/ XFwd \/ XXff \/ XHost
+GNext == XAccept \/ XRange \/ XRSet \/ XCLen \/ XCLenX \/ XETag \/ XFwd \/ XXff \/ XHost
 
 (* decision-table export: one JSON object per header value *)
 EmitG == LET hd == req.h[HdrOf[g]] IN
